@@ -354,7 +354,16 @@ def run_c06(t, tier, res):
     elif t.chance(1, 5):
         opts["coverage"] = t.choice([1e-06, 0.0001, 0.001, 0.999999])     # probabilities far below 1e-4 / Markov mass near 0
     wr = scratch.fresh_disk()
-    tr = trainer.train(pws, opts, uuid_seed=1)
+    fault = None
+    if t.chance(1, 8):
+        # a disk that fails one write (or one close) of one rules file and is healthy afterwards: the training either
+        # reports failure or leaves lists that are complete
+        fault = (t.between(1, 40), t.choice([0, 1, 1, 2, 3, 5, 9]), t.choice([1, 1, 1, 2, 5]))
+    tr = trainer.train(pws, opts, uuid_seed=1, write_fault=fault)
+    if tr.disk is not None and tr.disk.fired:
+        res.faults["transient_write_error_in_rules_file"] += 1
+        res.stats["write_error_then_training_reported_%s" % ("success" if tr.ok else "failure")] += 1
+        res.sim_seconds += tr.slept
     if flavour.get("large"):
         res.stats["large_lists_trained" if tr.ok else "large_lists_not_trained"] += 1
     res.sample = {"passwords": pws[:14], "n": len(pws), "opts": opts}
